@@ -237,10 +237,10 @@ func execOmni(s omniSched, dir string, seed int64) ([]any, error) {
 			h = sl.TilesHandler()
 		}
 		// in front of the log: nothing, a compressing front end or a redirect to a canonical location (fixed per schedule and log)
-		front := []string{"plain", "gzip", "redirect"}[int(hashSeed(tag+"/front/"+name, seed)%3)]
+		front := []string{"plain", "gzip", "redirect", "prefix"}[int(hashSeed(tag+"/front/"+name, seed)%4)]
 		sv := httptest.NewServer(stublog.FrontEnd(h, front))
 		servers = append(servers, sv)
-		url := sv.URL
+		url := stublog.URLOf(sv.URL, front)
 		if s.Types[i] == "tiles" {
 			url += "/"
 		}
@@ -436,6 +436,12 @@ func execOmni(s omniSched, dir string, seed int64) ([]any, error) {
 			if db != nil {
 				db.Close()
 				db = nil
+			}
+			if durable && k%2 == 0 {
+				// every other restart is an upgrade: the file is brought into the form the pinned release leaves behind
+				if err := rewriteAsRelease(dbPath); err != nil {
+					return nil, err
+				}
 			}
 			if err := openStore(); err != nil {
 				return nil, err
